@@ -28,9 +28,9 @@ pub fn property() -> Property {
             Part {
                 name: "injected",
                 quick: 96,
-                thorough: 1_500,
+                thorough: 12_000,
                 single_shard: false, supplementary: false,
-                run: |cfg| run_part(cfg, (prop_oneof![2 => gen::raw_pos(60), 1 => gen::raw_pos_endgames()], gen::raw_playout(6), 2..=4u32, any::<bool>(), 0..6u8), |(r, h, d, mode, k)| inj_case(r, h, *d, *mode, *k), check_injected),
+                run: |cfg| run_part(cfg, (prop_oneof![2 => gen::raw_pos(60), 1 => gen::raw_pos_endgames()], gen::raw_playout(6), 2..=4u32, any::<bool>(), 0..8u8), |(r, h, d, mode, k)| inj_case(r, h, *d, *mode, *k), check_injected),
                 replay: |v| replay_case::<InjCase, _>(v, check_injected),
             },
             Part {
@@ -44,7 +44,7 @@ pub fn property() -> Property {
             Part {
                 name: "threaded",
                 quick: 96,
-                thorough: 1_000,
+                thorough: 6_000,
                 single_shard: false, supplementary: false,
                 run: |cfg| run_part(cfg, (gen::raw_playout(40), 0..6u8, 0..8u8, any::<bool>(), 0..3u8), |(r, kind, delay, quit, resend)| thr_case(r, *kind, *delay, *quit, *resend), check_threaded),
                 replay: |v| replay_case::<ThrCase, _>(v, check_threaded),
@@ -60,7 +60,9 @@ pub struct InjCase {
     pub depth: u32,
     pub time_up: bool,
     /// 0,1: one interrupted search; 2: two in a row; 3: an interrupted one, then a completed one, then another interrupted one;
-    /// 4,5: as 0 / 2 but `ucinewgame` arrives between the interrupted search and the follow-up go
+    /// 4,5: as 0 / 2 but `ucinewgame` arrives between the interrupted search and the follow-up go;
+    /// 6: a completed search on the position two plies earlier comes first (the engine's previous turn of the game);
+    /// 7: as 6, and the two plies in between are the bestmove and the ponder move that search announced
     pub pattern: u8,
 }
 
@@ -88,6 +90,9 @@ struct Sync {
     rx: Receiver<UciTxCommand>,
 }
 
+/// marker in `before`: a completed search on the position two plies before the root
+const PREV_TURN: u64 = u64::MAX - 1;
+
 struct Answer {
     best: Vec<Option<UciMove>>,
     infos: Vec<Info>,
@@ -101,6 +106,12 @@ impl Sync {
         let mv: Vec<UciMove> = history.iter().map(|m| UciMove::from_str(m).map_err(|e| format!("{HARNESS_PREFIX} move {m}: {e:?}"))).collect::<Result<_, _>>()?;
         vs.set_position(f, mv);
         Ok(Sync { vs, rx })
+    }
+    fn position(&mut self, fen: &str, history: &[String]) -> Result<(), String> {
+        let f = Fen::from_str(fen).map_err(|e| format!("{HARNESS_PREFIX} fen {fen}: {e:?}"))?;
+        let mv: Vec<UciMove> = history.iter().map(|m| UciMove::from_str(m).map_err(|e| format!("{HARNESS_PREFIX} move {m}: {e:?}"))).collect::<Result<_, _>>()?;
+        self.vs.set_position(f, mv);
+        Ok(())
     }
     fn go(&mut self, depth: u64, plan: Option<(u64, AbortMode)>) -> Answer {
         set_abort_plan(plan);
@@ -165,7 +176,13 @@ fn one_point(fen: &str, history: &[String], depth: u32, time_up: bool, node: u64
     let mut s = Sync::new(fen, history)?;
     let what = |extra: &str| format!("position fen {fen} moves {history:?}; go depth {depth} interrupted at node {node} ({}){}{extra}", if time_up { "time up" } else { "stop seen" }, if before.is_empty() { String::new() } else { format!(" after earlier interruptions at {before:?}") });
     for &b in before {
-        if b == u64::MAX {
+        if b == PREV_TURN {
+            // the engine's previous turn: same game, two plies earlier, searched to the end
+            let h = &history[..history.len().saturating_sub(2)];
+            s.position(fen, h)?;
+            s.go(depth as u64, None);
+            s.position(fen, history)?;
+        } else if b == u64::MAX {
             s.go(depth as u64, None);
         } else {
             s.go(depth as u64, Some((b, mode)));
@@ -246,6 +263,25 @@ pub fn check_point(c: &PointCase, _ctx: &mut Ctx) -> Result<(), String> {
 }
 
 pub fn check_injected(c: &InjCase, ctx: &mut Ctx) -> Result<(), String> {
+    // pattern 7: the root is the position after the engine's own bestmove and the announced ponder move
+    let mut c = c.clone();
+    if c.pattern == 7 {
+        let h: Vec<String> = c.history[..c.history.len().saturating_sub(2)].to_vec();
+        let mut s = Sync::new(&c.fen, &h)?;
+        let a = s.go(c.depth as u64, None);
+        let pv: Vec<String> = a.infos.iter().rev().find_map(|i| i.principal_variation.clone()).map(|pv| pv.iter().map(|m| m.to_string()).collect()).unwrap_or_default();
+        let prev = root_of(&c.fen, &h)?;
+        let ok = pv.len() >= 2 && Mv::parse(&pv[0]).map_or(false, |m| prev.is_legal(m) && Mv::parse(&pv[1]).map_or(false, |r| prev.apply(m).is_legal(r)));
+        if ok {
+            c.history = h;
+            c.history.push(pv[0].clone());
+            c.history.push(pv[1].clone());
+            ctx.class("root_reached_by_bestmove_and_ponder_move");
+        } else {
+            c.pattern = 6;
+        }
+    }
+    let c = &c;
     let base = baseline(&c.fen, &c.history, c.depth)?;
     if base.legal.is_empty() {
         ctx.class("terminal_root");
@@ -254,7 +290,7 @@ pub fn check_injected(c: &InjCase, ctx: &mut Ctx) -> Result<(), String> {
     let n = base.nodes_total;
     let mut points: Vec<u64> = Vec::new();
     // work bound per root: about 40 million nodes (quiescence included) over all interrupted runs
-    let pattern_len: u64 = match c.pattern { 2 | 5 => 2, 3 => 3, _ => 1 };
+    let pattern_len: u64 = match c.pattern { 2 | 5 | 6 | 7 => 2, 3 => 3, _ => 1 };
     let affordable = (24_000_000 / base.work_total.max(1) / pattern_len).max(12);
     if n <= 1500 && n <= affordable {
         points.extend(1..=n);
@@ -282,9 +318,10 @@ pub fn check_injected(c: &InjCase, ctx: &mut Ctx) -> Result<(), String> {
         let before: Vec<u64> = match c.pattern {
             2 | 5 => vec![(node * 7 + 3) % n + 1],
             3 => vec![(node * 5 + 1) % n + 1, u64::MAX],
+            6 | 7 => vec![PREV_TURN],
             _ => vec![],
         };
-        let new_game = c.pattern >= 4;
+        let new_game = matches!(c.pattern, 4 | 5);
         match one_point(&c.fen, &c.history, c.depth, c.time_up, node, &before, new_game, &base) {
             Ok(interrupted) => {
                 ctx.evals(1);
